@@ -462,7 +462,9 @@ func memoisedByKey(w *World, fn *ssa.Function) (bool, string) {
 			case "call":
 				if e.Callee != nil && e.Callee != fn && e.Callee.Pkg == w.SLib {
 					if m, unk := w.modSet(e.Callee); len(m) > 0 || unk {
-						return false, "calls " + e.Callee.Name()
+						if !freshOnly(w, e.Callee, map[*ssa.Function]bool{fn: true}) {
+							return false, "calls " + e.Callee.Name()
+						}
 					}
 				}
 			}
@@ -847,6 +849,37 @@ func ruleWireCLI(w *World, r *RuleResult) {
 				d.add(good, fmt.Sprintf("add/%d", k), c.posOf(e), fmt.Sprintf("warrior %d added %s", k+1, map[int]string{0: "first", 1: "second"}[k]), fmt.Sprintf("the %s AddWarrior call receives %s", map[int]string{0: "first", 1: "second"}[k], s))
 			}
 		}
+		// refusals: the tool gives up (non-zero exit) only because a callee reported an error
+		// or because of the command line's shape, never because of the option values themselves
+		if p.End == "exit" && len(p.Events) > 0 && len(p.Conds) > 0 {
+			last := p.Events[len(p.Events)-1]
+			if last.Kind == "call" && len(last.Args) == 1 && last.Args[0].IsConst() && last.Args[0].C != 0 {
+				cd := p.Conds[len(p.Conds)-1]
+				a := cd.Atom
+				isErr := a.Op == "eq" && a.A[1].Op == "nil" && !cd.Val
+				// the number of command-line arguments / of warriors read from them
+				shape := (a.Op == "lt" || a.Op == "eq") && a.contains(func(x *T) bool { return x.Op == "len" }) && !a.contains(func(x *T) bool {
+					return x.Op == "sel" || x.Op == "mul" || x.Op == "sub"
+				})
+				what := "args"
+				if isErr {
+					what = "error"
+					a.A[0].walk(func(x *T) bool {
+						if x.Op == "call" {
+							what = "err-of-" + x.S
+							return false
+						}
+						return true
+					})
+				} else if !shape {
+					what = stripEpoch(a).Show()
+					if len(what) > 80 {
+						what = what[:80]
+					}
+				}
+				d.add(isErr || shape, "exit/"+what, w.Pos(cd.Pos), "non-zero exit only after a reported error or a malformed command line", "the tool exits with status "+fmt.Sprint(last.Args[0].C)+" because of "+stripEpoch(a).Show()+", which is neither an error reported by the library nor the shape of the command line: a supported combination of options is refused and no result lines are printed")
+			}
+		}
 		// rounds loop bound
 		for _, cd := range p.Conds {
 			a := cd.Atom
@@ -1066,4 +1099,46 @@ func loopBody(fn *ssa.Function, hdr int) map[int]bool {
 		}
 	}
 	return body
+}
+
+// freshOnly: fn changes nothing but storage it allocated itself (local
+// buffers, result slices): no map element written, no store outside fresh
+// allocations, and only such functions (or itself) called.
+func freshOnly(w *World, fn *ssa.Function, seen map[*ssa.Function]bool) bool {
+	if seen[fn] {
+		return true
+	}
+	seen[fn] = true
+	paths, err := w.Paths(fn)
+	if err != nil {
+		return false
+	}
+	for _, p := range paths {
+		for _, e := range p.Events {
+			switch e.Kind {
+			case "mapupdate", "send", "go":
+				return false
+			case "store":
+				root := e.LV
+				for root.Op == "sel" || root.Op == "elem" {
+					root = root.A[0]
+				}
+				if root.Op != "new" && root.Op != "makeslice" && root.Op != "alloc" {
+					return false
+				}
+			case "call":
+				if e.Callee == nil {
+					return false
+				}
+				if e.Callee.Pkg == w.SLib {
+					if m, unk := w.modSet(e.Callee); (len(m) > 0 || unk) && !freshOnly(w, e.Callee, seen) {
+						return false
+					}
+				} else if _, unk := w.modSet(e.Callee); unk {
+					return false
+				}
+			}
+		}
+	}
+	return true
 }
